@@ -303,7 +303,8 @@ class BufferCursor(Cursor):
         return result
 
     def _matchre_fast(self, pattern: str | re.Pattern | None) -> bool:
-        if not (match := self._scanre(pattern)):
+        if not (match := self._scanre(pattern)) or not match.group():
+            # an empty match eats nothing (and would repeat forever)
             return False
 
         self.move(len(match.group()))
@@ -639,7 +640,8 @@ class Buffer(Text):
         return token
 
     def _matchre_fast(self, pattern: str | re.Pattern | None) -> bool:
-        if not (match := self._scanre(pattern)):
+        if not (match := self._scanre(pattern)) or not match.group():
+            # an empty match eats nothing (and would repeat forever)
             return False
 
         self.move(len(match.group()))
